@@ -37,7 +37,7 @@ FAMILIES = {
                   FaultOps=[], MaxFaults=0, TaintKinds=["now"], cfg=dict(min=0), MaxPend=1, InitNodes=2),
     # the cool-down lock: every spacing of Tick and RunOnce, below-minimum states during the window
     "lock": fam(EnvOn=["Tick", "PodArrive", "PodFinish", "CloudLaunch", "Register", "Cordon", "Uncordon", "ExtTaint", "ExtForce", "Restart"],
-                FaultOps=["set_desired"], MaxFaults=1, cfg=dict(min=1, max=3), MaxPend=2, InitNodes=1),
+                FaultOps=["set_desired", "slow"], MaxFaults=1, cfg=dict(min=1, max=3), MaxPend=2, InitNodes=1),
     # scale up / down with untaint-before-buy, ties and failing writes
     "updown": fam(EnvOn=["Tick", "PodArrive", "PodSchedule", "PodFinish", "CloudLaunch", "Register", "ExtForce"],
                   FaultOps=["get", "update", "terminate"], MaxFaults=1, cfg=dict(min=0, max=2), AsgMax0=3, MaxPend=2),
